@@ -11,3 +11,93 @@ Proof.
   intros. unfold g_sim_keyLess, keyless.
   destruct (Nat.eqb_spec (length a) (length b)); gen_split; cbn [negb]; try reflexivity; try (exfalso; lia).
 Qed.
+
+(* ---------------- util.SortedKeyMap ---------------- *)
+Definition is_some {A} (o : option A) : bool := match o with Some _ => true | None => false end.
+
+(* Set: a new key is appended and the key slice re-sorted (1, 2); the value is stored either way (3) *)
+Lemma gen_skm_set : forall (V : Type) lt (m : skm V) k v,
+  skm_set lt m k v =
+  match g_skm_set (is_some (lookup k (sk_vals m))) with
+  | ([1; 2; 3], Fall) => mkSkm (sort_keys lt (sk_keys m ++ [k])) (update k v (sk_vals m))
+  | ([3], Fall) => mkSkm (sk_keys m) (update k v (sk_vals m))
+  | _ => m
+  end.
+Proof. intros. unfold skm_set, g_skm_set. destruct (lookup k (sk_vals m)); reflexivity. Qed.
+
+(* Get: the stored value when the key is known, the zero value and false otherwise *)
+Lemma gen_skm_get : forall (V : Type) (m : skm V) k,
+  g_skm_get (is_some (skm_get m k)) = ([], RetO (if is_some (skm_get m k) then 1 else 0)).
+Proof. intros. unfold g_skm_get. destruct (skm_get m k); reflexivity. Qed.
+
+Lemma firstn_min : forall (A : Type) n (l : list A), firstn n l = firstn (Nat.min n (length l)) l.
+Proof.
+  intros. destruct (Nat.le_ge_cases n (length l)) as [H|H].
+  - rewrite Nat.min_l by exact H. reflexivity.
+  - rewrite Nat.min_r by exact H. rewrite firstn_all. apply firstn_all2. exact H.
+Qed.
+
+(* Keys(count): the count is clamped to the number of keys (1) before the copy loop (2), which takes the keys
+   from the top end - the model's firstn count (rev keys) *)
+Lemma gen_skm_keys : forall (V : Type) (m : skm V) count,
+  skm_keys m count =
+  let n := length (sk_keys m) in
+  match g_skm_keys (Z.of_nat count) (Z.of_nat n) with
+  | ([1; 2], RetO 1) => firstn n (rev (sk_keys m))
+  | ([2], RetO 1) => firstn count (rev (sk_keys m))
+  | _ => []
+  end.
+Proof.
+  intros. unfold skm_keys, g_skm_keys. cbv zeta. gen_split; try reflexivity.
+  rewrite firstn_min, rev_length. rewrite Nat.min_r by lia. reflexivity.
+Qed.
+
+(* ---------------- OCR3TransmitLoader ---------------- *)
+(* Transmit (encoders succeeding): queued and recorded (4, 5) exactly when the (report, round) key was not
+   transmitted before; otherwise rejected with an error and nothing changes *)
+Lemma gen_sim_transmit : forall s t,
+  tl_transmit s t =
+  match g_sim_transmit false false (key_mem (tx_key t) (map tx_key (tl_done s))) with
+  | ([1; 2; 3; 4; 5], RetO 0) => (mkTl (tl_queue s ++ [t]) (tl_done s ++ [t]), true)
+  | _ => (s, false)
+  end.
+Proof. intros. unfold tl_transmit, g_sim_transmit. destruct (key_mem _ _); reflexivity. Qed.
+
+Lemma gen_sim_transmit_errors : forall e2 d,
+  g_sim_transmit true e2 d = ([], RetO 1) /\ g_sim_transmit false true d = ([1; 2], RetO 1) /\
+  g_sim_transmit false false true = ([1; 2; 3], RetO 2).
+Proof. intros. repeat split. Qed.
+
+(* Load: nothing happens on an empty queue; otherwise every queued transmit is stamped and copied (1), the queue is
+   emptied (2) and one transaction holding the copies is added to the block (3) *)
+Lemma gen_sim_load : forall s p,
+  fst (tl_load s) = mkTl [] (tl_done s) /\
+  g_sim_load (Z.of_nat (length (tl_queue s))) p =
+  match tl_queue s with
+  | [] => ([], RetU)
+  | _ => (if p then [1; 2; 3; 4] else [1; 2; 3], Fall)
+  end.
+Proof.
+  intros. split; [reflexivity|]. unfold g_sim_load. destruct (tl_queue s); cbn [length]; gen_split; try (exfalso; lia);
+  destruct p; reflexivity.
+Qed.
+
+(* straight-line bodies: block history fan-out, Load's loop, report tracker look-back *)
+Lemma gen_sim_straight :
+  g_skm_keys_body = ([1], Fall) /\ g_sim_load_body = ([1; 2; 3; 4], Fall) /\
+  g_sim_history_broadcast = ([1; 2; 3], Fall) /\ g_sim_history_broadcast_keys = ([1; 2], Fall) /\
+  g_sim_history_broadcast_send = ([1], Fall) /\ g_sim_plugin_events_body = ([1; 2], Fall).
+Proof. repeat split. Qed.
+
+(* GetLatestEvents: nothing before the first block; otherwise the look-back keys are read (1) and every event of
+   every block in range contributes its plug-in events (2), a report that fails to decode contributing none *)
+Lemma gen_sim_latest_events : forall s,
+  g_sim_latest_events (negb (is_some (rt_latest s))) =
+  match rt_latest s with None => ([], RetO 0) | Some _ => ([1; 2], RetO 1) end.
+Proof. intros. unfold g_sim_latest_events. destruct (rt_latest s); reflexivity. Qed.
+
+Lemma gen_sim_latest_events_event : forall e, g_sim_latest_events_event e = ([1; 2], Fall).
+Proof. intros. unfold g_sim_latest_events_event. destruct e; reflexivity. Qed.
+
+Lemma gen_sim_plugin_events : forall e, g_sim_plugin_events e = if e then ([], RetO 0) else ([1], RetO 1).
+Proof. intros. reflexivity. Qed.
